@@ -1157,6 +1157,22 @@ def _record_bound(b):
     if b.k == 'and':
         _record_bound(b.a); _record_bound(b.b)
         return
+    if b.k == 'cmp' and b.a == '==' and b.b.d.is_const():
+        # the path assumes  k*atom + c0 == 0 : substitute the value (a pure rewrite rule), so that later terms simplify
+        pe = b.b.n
+        q_, c0_ = _split_const(pe)
+        if q_.is_monomial():
+            (m_, k_), = q_.t.items()
+            if len(m_) == 1 and m_[0][1] == 1 and m_[0][0] in CTX.inputs:
+                at = m_[0][0]
+                val = -c0_ / k_
+                CTX.rules.add_pure(at, 1, Poly.const(val))
+                CTX.bounds[at] = (val, val)
+                if val == 0:
+                    for nm_, d_ in list(CTX.defs.items()):
+                        if d_[0] in ('sin', 'cos') and at in dict(d_[1]):
+                            CTX.rules.add_pure(nm_, 1, Poly() if d_[0] == 'sin' else ONE)
+        return
     if b.k != 'cmp' or b.a not in ('>=', '>', '<=', '<') or not b.b.d.is_const():
         return
     p = b.b.n.scale(1 / b.b.d.const_val())
@@ -1715,6 +1731,10 @@ def atan2(y, x):
     cy, cx = const_value(y), const_value(x)
     if cy is not None and cx is not None and (abs(cy) > 1e-9 or abs(cx) > 1e-9):
         return SReal.lift(_math.atan2(cy, cx))
+    # inverse-of-direct: atan2(k sin b, k cos b) = b for k > 0 when -pi < b <= pi is known
+    inv = _atan2_of_sincos(y, x)
+    if inv is not None:
+        return inv
     if (x == 0) and (y == 0):
         return SReal.lift(0)
     rho = sqrt(x * x + y * y)
@@ -1724,6 +1744,35 @@ def atan2(y, x):
                 pass
         CTX.facts.append(poly_z3(rho.simp().n) != 0)
     return _reg_angle('at', 'atan2', (y, x), y / rho, x / rho, -pi(), pi(), lo_strict=True)
+
+
+def _atan2_of_sincos(y, x):
+    if not (y.d.is_const() and x.d.is_const() and y.n.is_monomial() and x.n.is_monomial()):
+        return None
+    (my, ky), = y.n.t.items()
+    (mx, kx), = x.n.t.items()
+    ky, kx = ky / y.d.const_val(), kx / x.d.const_val()
+    sy = [v for v, e in my if v.startswith('s_') and e == 1 and CTX.defs.get(v, ('',))[0] == 'sin']
+    for sv in sy:
+        cv = 'c_' + sv[2:]
+        if (cv, 1) not in mx:
+            continue
+        resty = tuple((v, e) for v, e in my if v != sv)
+        restx = tuple((v, e) for v, e in mx if v != cv)
+        if resty != restx or ky != kx:
+            continue
+        k = SReal(Poly({resty: ky}))
+        if resty == () and ky > 0:
+            pass
+        elif _known_sign(k) != 'pos' and _interval_sign(k) != 'pos':
+            continue
+        d = CTX.defs[sv]
+        ang = SReal(Poly({d[1]: Fr(1, d[2])}))
+        lo_, hi_ = poly_interval(ang.n)
+        pl = CTX.bounds['pi'][0]
+        if lo_ is not None and hi_ is not None and lo_ > -pl and hi_ <= pl:
+            return ang
+    return None
 
 
 def acos(x):
